@@ -22,7 +22,8 @@
 (* value of its flow type) is the property; TLC checks it for every        *)
 (* program of the bounded family.                                          *)
 (*                                                                         *)
-(* Deviations are NAMED guarded branches that drop one of the widenings -- *)
+(* Deviations are NAMED guarded branches that drop one of the widenings (or *)
+(* let a stale type decide a condition: "fold_condition") --               *)
 (* they describe what the implementation was observed to do, make `Sound`  *)
 (* fail in the model, and let the harness recognise a recorded finding     *)
 (* exactly.  Deviations = {} is the reference.                             *)
@@ -42,7 +43,7 @@ CONSTANTS Decl,        \* abstract values admitted by the declared type, subset 
           Programs     \* the programs to execute
 
 Vals == {"nil", "false", "int", "str"}
-AllDeviations == {"closure_call", "loop_backedge", "handler_entry", "closure_body"}
+AllDeviations == {"closure_call", "loop_backedge", "handler_entry", "closure_body", "fold_condition"}
 
 ASSUME Decl \subseteq Vals /\ Deviations \subseteq AllDeviations
 
@@ -115,6 +116,14 @@ CondHolds(op, v) == CASE op \in {"if", "while"} -> Truthy(v)
                       [] op = "eqnil"           -> v = "nil"
                       [] OTHER                  -> TRUE
 
+(* Is the body of a guard / loop entered?  By the value of `a` -- except    *)
+(* under the "fold_condition" deviation: a compiler that trusts the static *)
+(* type folds `a == nil` to true when the flow type of `a` is exactly nil. *)
+(* With a sound flow type both agree; with a stale one the wrong branch    *)
+(* runs (observed: `if a == nil; f_int.(); if a == nil; <entered with 1>`).*)
+Taken(op, v, t) ==
+  IF "fold_condition" \in Deviations /\ op = "eqnil" /\ t = {"nil"} THEN TRUE ELSE CondHolds(op, v)
+
 NarrowBy(op, t) == CASE op \in {"if", "while"} -> TruthyPart(t)
                      [] op = "unless"          -> FalsyPart(t)
                      [] op = "eqnil"           -> t \cap {"nil"}
@@ -177,7 +186,7 @@ ExecSimple ==
 
 (* enter the body of a compound statement whose condition holds            *)
 Enter ==
-  /\ ~done /\ HasCur /\ Cur.op \in CompoundOps /\ CondHolds(Cur.op, store)
+  /\ ~done /\ HasCur /\ Cur.op \in CompoundOps /\ Taken(Cur.op, store, ft)
   /\ LET s    == Cur
          head == HeadType(s, ft)
          inft == NarrowBy(s.op, head)
@@ -188,7 +197,7 @@ Enter ==
 
 (* the condition of a guard / while does not hold: skip the statement      *)
 Skip ==
-  /\ ~done /\ HasCur /\ Cur.op \in CompoundOps /\ ~CondHolds(Cur.op, store)
+  /\ ~done /\ HasCur /\ Cur.op \in CompoundOps /\ ~Taken(Cur.op, store, ft)
   /\ LET nft == StaticStmt(Cur, ft) IN
        /\ ft' = nft
        /\ hist' = Append(hist, Probe(SP, store, nft))
